@@ -308,13 +308,16 @@ PLUGS = {
                 project=proj_full, oracles=[], disagreement_is_failure=True),
     'C13': dict(streams=lambda seed, tier: gen.scenarios_cond(seed, sizes(tier, 2000, 30000)),
                 project=proj_full, oracles=[], disagreement_is_failure=True),
-    'C14': dict(streams=lambda seed, tier: gen.scenarios_construct(seed, sizes(tier, 1500, 25000)),
+    'C14': dict(streams=lambda seed, tier: with_oracles(gen.scenarios_construct(seed, sizes(tier, 1500, 25000)), ['c14']),
                 project=proj_full, oracles=['c14'], disagreement_is_failure=True),
     'C15': dict(streams=lambda seed, tier: gen.scenarios_process(seed, sizes(tier, 800, 12000), generic_share=0.0) +
                 [s for s in conv_stream(seed, sizes(tier, 3000, 40000), 'from_data', []) if '"cls"' in json.dumps(s['ty'])] +
                 [s for s in conv_stream(seed + 5, sizes(tier, 1500, 20000), 'roundtrip', []) if '"cls"' in json.dumps(s['ty'])] +
                 gen.scenarios_tuplelayout(seed, sizes(tier, 600, 9000)) + gen.scenarios_shapes(seed, sizes(tier, 400, 6000), op='from_data'),
                 project=proj_full, oracles=[], disagreement_is_failure=True),
+    'C16': dict(streams=lambda seed, tier: gen.scenarios_valuesem(seed, sizes(tier, 2000, 30000)) + gen.scenarios_hashtable(seed) +
+                gen.scenarios_process(seed, sizes(tier, 300, 4000), generic_share=0.2),
+                project=proj_full, oracles=['c16'], disagreement_is_failure=True, exhaustive_part='hashcube'),
     'C17': dict(streams=lambda seed, tier: gen.scenarios_process(seed, sizes(tier, 1500, 25000), generic_share=0.7),
                 project=proj_full, oracles=[], disagreement_is_failure=True),
     'C20': dict(streams=lambda seed, tier: rename_stream(seed, tier), project=proj_full, oracles=[], disagreement_is_failure=True,
